@@ -846,6 +846,29 @@ def c12(encs, opts, be):
                 bad.append(dict(kind='depends_on_predecessors', what='a document is written differently inside a stream than alone: %r (alone) vs %r (in the stream)' % (cat[max(0, j - 30):j + 30], full[max(0, j - 30):j + 30]), text=full[:6000], dumper=be))
         except Exception as e:
             pass
+    # dump_all accepts any iterable: documents that are short-lived temporaries (their ids may be recycled) and one object
+    # updated in place between the documents must be written exactly like the same values held in a list
+    if len(encs) >= 2 and not bad:
+        try:
+            lazy = _as_text(yaml.dump_all((decode(e) for e in encs), Dumper=D, **o), o)
+            if lazy != txt:
+                j = 0
+                while j < min(len(lazy), len(txt)) and lazy[j] == txt[j]: j += 1
+                bad.append(dict(kind='depends_on_predecessors', what='dump_all of a generator of temporaries differs from dump_all of the list of the same values: %r vs %r' % (lazy[max(0, j - 30):j + 30], txt[max(0, j - 30):j + 30]), text=lazy[:6000], dumper=be))
+            acc = {'seq': 0, 'items': []}
+            def growing():
+                for i, d in enumerate(docs[:4]):
+                    acc['seq'] = i; acc['items'].append(d)
+                    yield acc
+            grown = _as_text(yaml.dump_all(growing(), Dumper=D, **o), o)
+            snaps = [{'seq': i, 'items': [decode(e) for e in encs[:i + 1]]} for i in range(min(4, len(encs)))]
+            want = _as_text(yaml.dump_all(snaps, Dumper=D, **o), o)
+            if grown != want:
+                j = 0
+                while j < min(len(grown), len(want)) and grown[j] == want[j]: j += 1
+                bad.append(dict(kind='depends_on_predecessors', what='one object updated in place between the documents of dump_all is not written in its current state (stale copy of an earlier document?): %r vs %r' % (grown[max(0, j - 40):j + 40], want[max(0, j - 40):j + 40]), text=grown[:6000], dumper=be))
+        except Exception as e:
+            pass
     return dict(bad=bad, outcome='ok' if not bad else 'bad')
 
 def c12n(text, be):
@@ -977,6 +1000,12 @@ def _api_call(call):
         if kind == 'serialize':
             nodes = [n for n in yaml.compose_all(call[1], Loader=SL) if n is not None]
             return 'ok ' + yaml.serialize_all(nodes, Dumper=SD)
+        if kind.startswith('custom_'):
+            from tools import c11custom as CC
+            K = CC.classes(be)
+            if kind == 'custom_dump_object': return 'ok ' + yaml.dump([CC.Point(1, 2), CC.Sub(8), {'k': CC.Point(3, 4)}], Dumper=K[call[1]])
+            if kind == 'custom_dump_env': return 'ok ' + yaml.dump(decode(call[1]), Dumper=K['EnvDumper'])
+            if kind == 'custom_load': return 'ok ' + show(yaml.load(call[2], Loader=K[call[1]]), ident=False)
     except yaml.YAMLError as e: return 'YAMLError %s %s' % (type(e).__name__, str(e)[:200])
     except RecursionError: return 'RecursionError'
     except Exception as e: return 'EXC %s %s' % (type(e).__name__, str(e)[:100])
@@ -1004,6 +1033,10 @@ def _global_snapshot():
             elif isinstance(v, type) and v.__module__ == m.__name__:
                 for a, x in sorted(vars(v).items()):
                     if isinstance(x, (dict, list, set)): out.append('%s.%s.%s=%s' % (m.__name__, v.__name__, a, canon(x)))
+    from tools import c11custom as CC
+    for n, c in CC.all_custom_classes():                   # customised subclasses: the tables they own
+        for a, x in sorted(vars(c).items()):
+            if isinstance(x, (dict, list, set)): out.append('custom.%s.%s=%s' % (n, a, canon(x)))
     return out
 
 def _in_child(fn):
@@ -1024,6 +1057,9 @@ def _in_child(fn):
 def c11(calls):
     """the sequence of calls inside one interpreter vs each call alone in a fresh fork; library-global state before/after"""
     import yaml
+    from tools import c11custom as CC
+    CC.classes('py')
+    if hasattr(yaml, 'CSafeLoader'): CC.classes('c')
     ref = [_in_child(lambda c=c: _api_call(c)) for c in calls]
     def seq():
         before = _global_snapshot()
@@ -1269,7 +1305,7 @@ HANDLERS.update({'c18': c18})
 def _count_calls(fn):
     cnt = [0]
     def prof(frame, ev, arg):
-        if ev == 'call': cnt[0] += 1
+        if ev == 'call' or ev == 'c_call': cnt[0] += 1          # Python-level and builtin-level calls alike
     sys.setprofile(prof)
     try: fn()
     finally: sys.setprofile(None)
@@ -1282,7 +1318,24 @@ def c20(side, family, n, opts):
     counts = []; sizes = []
     for k in (n, 2 * n, 4 * n):
         try:
-            if side == 'load':
+            if side == 'custom':
+                from tools import c11custom as CC
+                kind, cname, fn = catalogue.CUSTOM[family]; C = CC.classes('py')[cname]
+                if kind == 'load':
+                    text = fn(k); sizes.append(len(text))
+                    counts.append(_count_calls(lambda: list(yaml.load_all(text, Loader=C))))
+                elif kind == 'dump':
+                    v = fn(k); out = []
+                    counts.append(_count_calls(lambda: out.append(yaml.dump(v, Dumper=C, **(opts or {})))))
+                    sizes.append(len(out[0]))
+                elif kind == 'calls':
+                    doc = '- foo\n- far\n- 1x\n- nab\n- ${HOME}\n'; sizes.append(k * len(doc))
+                    counts.append(_count_calls(lambda: [yaml.load(doc, Loader=C) for _ in range(k)]))
+                else:
+                    objs = [CC.Sub(1), CC.Sub(2)]; out = []
+                    counts.append(_count_calls(lambda: [out.append(yaml.dump(objs, Dumper=C)) for _ in range(k)]))
+                    sizes.append(sum(len(x) for x in out))
+            elif side == 'load':
                 text = catalogue.LOAD[family](k); sizes.append(len(text))
                 counts.append(_count_calls(lambda: list(yaml.safe_load_all(text))))
             else:
@@ -1474,4 +1527,4 @@ def handle(case):
     return HANDLERS[case[0]](*case[1:])
 
 if __name__ == '__main__' and '--worker' in sys.argv:
-    worker_main(handle)
+    worker_main(handle, dict_results=True)
